@@ -107,6 +107,31 @@ def run_shard(args):
             fid = classify(files, order, sites, style)
             detail.update(files=files, flags=["create"], style=style, seed=args.seed, shard=args.shard, case=c)
             out["violations"].append({"kind": detail["kind"], "detail": {k: detail[k] for k in detail if k not in ("files",)}, "witness": {"files": files}, "finding": fid})
+    # ---- real sessions: `pytest --inline-snapshot=create` followed by `--inline-snapshot=disable` must be green
+    from .. import session
+
+    nreal = {"quick": 1 if args.shard < 4 else 0, "thorough": 8}[tier]
+    for c in range(nreal):
+        rng = random.Random(f"{args.seed}/{PROP}/session/{args.shard}/{c}")
+        sites = [make_site(rng, i, depth) for i in range(rng.randint(6, 12))]
+        for s in sites:
+            if s["place"] == "module":
+                s["place"] = "loop"  # an empty module-level snapshot() makes the disabled import fail by design
+        src, order = program.build(sites, style="assert", tests=rng.randint(2, 4), header="from inline_snapshot import snapshot, outsource\nfrom vp import *\n")
+        proj = session.Project({"test_a.py": src})
+        try:
+            r1 = session.run_session(proj, ["--inline-snapshot=create"])
+            r2 = session.run_session(proj, ["--inline-snapshot=disable"])
+        finally:
+            proj.close()
+        out["counters"]["real_session_pairs"] = out["counters"].get("real_session_pairs", 0) + 1
+        out["evaluations"] += len(sites)
+        out["signatures"].add("real-session/create-then-disable")
+        wit = {"files": {"test_a.py": src}, "args": ["--inline-snapshot=create", "--inline-snapshot=disable"]}
+        if any(a["kind"] == "sessionfinish_exception" for a in r1.audit):
+            out["violations"].append({"kind": "session-end-raised", "detail": {"events": [a for a in r1.audit if a["kind"] == "sessionfinish_exception"]}, "witness": wit, "finding": None})
+        elif r2.exit != 0:
+            out["violations"].append({"kind": "disabled-session-fails-after-real-create-session", "detail": {"exit": r2.exit, "outcomes": {k: v for k, v in r2.outcomes.items() if v != "passed"}, "stdout_tail": r2.stdout[-800:], "new": r1.after.get("test_a.py", b"").decode()[:2500]}, "witness": wit, "finding": None})
     out["signatures"] = sorted(out["signatures"])
     return out
 
